@@ -56,6 +56,7 @@ type implOut struct {
 	Dev    []string `json:"dev"`
 	Mode   string   `json:"mode"`
 	Agrees bool     `json:"agrees"`
+	Ref    outcome  `json:"ref"` // Unwind!Run(P), one run
 }
 
 type combo struct{ id, v, y int }
@@ -146,6 +147,12 @@ func observe(c *core.Ctx, pool *gjs.Pool, batch []*scenario, inject string) (*ba
 	return &batchRun{dir: dir, obs: obs, prog: prog}, true
 }
 
+// pinnedFamilies: F1 defers F2 and calls Goexit; F2 calls F3, which has a defer statement, and prints afterwards.
+var pinnedFamilies = []string{
+	`[[["defer",["call",2]],["emit",11],["goexit"]],[["call",3],["emit",21]],[["defer",["emit",31]],["ret",6]]]`,
+	`[[["defer",["call",2]],["goexit"]],[["defer",["rec",21]],["call",3],["emit",22]],[["defer",["rec",31]],["panic",1]]]`,
+}
+
 var coreOps = []string{"ret", "panic", "call", "recover", "goexit", "d.emit", "d.rec", "d.call"}
 
 func famOps(s *scenario) int {
@@ -222,17 +229,29 @@ func implModel(c *core.Ctx, pool *gjs.Pool, scens map[string]*scenario) {
 	// (c) a seeded sample of the three-function families of the main phase
 	three := keysOf(scens, func(s *scenario) bool { return len(s.P) == 3 })
 	rng.Shuffle(len(three), func(i, j int) { three[i], three[j] = three[j], three[i] })
-	if max := c.Pick(100, 3000); len(three) > max {
+	if max := c.Pick(100, 1500); len(three) > max {
 		three = three[:max]
 	}
 	for _, k := range three {
 		add(scens[k], []int{0, otherV[rng.Intn(3)]}, []int{0, 1 + rng.Intn(2)})
 	}
+	// (d) pinned families of the same alphabet that exhibit a deviation the seeded sample rarely contains
+	//     (their reference outcome is taken from Unwind!Run(P) as evaluated inside the UnwindJS run)
+	var pinned []*implProg
+	for _, pj := range pinnedFamilies {
+		s := &scenario{raw: `{"P":` + pj + `}`}
+		if err := json.Unmarshal([]byte(s.raw), s); err != nil {
+			c.Infra(fmt.Errorf("pinned family %s: %v", pj, err))
+			return
+		}
+		add(s, allV, []int{0, 2})
+		pinned = append(pinned, progs[len(progs)-1])
+	}
 	if c.Thorough() {
 		four := keysOf(scens, func(s *scenario) bool { return len(s.P) == 1 && famOps(s) == 4 })
 		rng.Shuffle(len(four), func(i, j int) { four[i], four[j] = four[j], four[i] })
-		if len(four) > 4000 {
-			four = four[:4000]
+		if len(four) > 2000 {
+			four = four[:2000]
 		}
 		for _, k := range four {
 			add(scens[k], []int{0, otherV[rng.Intn(3)]}, []int{0, 1 + rng.Intn(2)})
@@ -304,6 +323,17 @@ func implModel(c *core.Ctx, pool *gjs.Pool, scens map[string]*scenario) {
 		return
 	}
 	c.Set("impl_model_states", r.Distinct)
+	for _, p := range pinned {
+		o := outs[combo{p.ID, 0, 0}]
+		if len(o) == 0 {
+			c.Infra(fmt.Errorf("UnwindJS.tla wrote no behaviour for pinned family %d", p.ID))
+			return
+		}
+		p.s.Out = o[0].Ref
+		p.s.want = p.s.lines()
+		ob, _ := json.Marshal(p.s.Out)
+		p.s.raw = `{"P":` + string(p.P) + `,"out":` + string(ob) + `}`
+	}
 	// per combination: the behaviour of the real tree and the behaviour without deviation actions
 	realOf := map[combo]implOut{}
 	devFam := map[string]map[int]bool{}
@@ -365,7 +395,7 @@ func implModel(c *core.Ctx, pool *gjs.Pool, scens map[string]*scenario) {
 	{
 		var sub []*implProg
 		for _, p := range progs {
-			if len(p.s.P) == 2 || c.Thorough() {
+			if len(p.s.P) == 2 || (c.Thorough() && len(p.s.P) == 1 && famOps(p.s) <= 3) {
 				sub = append(sub, p)
 			}
 		}
@@ -390,10 +420,14 @@ func implModel(c *core.Ctx, pool *gjs.Pool, scens map[string]*scenario) {
 	}
 	rng.Shuffle(len(devC), func(i, j int) { devC[i], devC[j] = devC[j], devC[i] })
 	rng.Shuffle(len(plainC), func(i, j int) { plainC[i], plainC[j] = plainC[j], plainC[i] })
-	if max := c.Pick(250, 20000); len(devC) > max {
+	// the rare deviation first, so that it is always replayed
+	sort.SliceStable(devC, func(i, j int) bool {
+		return hasDev(realOf[devC[i]].Dev, "goexit") && !hasDev(realOf[devC[j]].Dev, "goexit")
+	})
+	if max := c.Pick(250, 5000); len(devC) > max {
 		devC = devC[:max]
 	}
-	if max := c.Pick(750, 60000); len(plainC) > max {
+	if max := c.Pick(750, 15000); len(plainC) > max {
 		plainC = plainC[:max]
 	}
 	chosen := append(append([]combo{}, devC...), plainC...)
@@ -421,6 +455,7 @@ func implModel(c *core.Ctx, pool *gjs.Pool, scens map[string]*scenario) {
 		why      string
 		drift    bool
 		violates bool
+		goexit   bool
 	}
 	res := make([][]verdict, nb)
 	confirmed := make([]int, nb)
@@ -444,10 +479,38 @@ func implModel(c *core.Ctx, pool *gjs.Pool, scens map[string]*scenario) {
 			k := chosen[lo+i]
 			o := br.obs[i]
 			model := realOf[k].Out
+			nativeAgrees := func() (bool, bool) {
+				if bin == "" {
+					bin = filepath.Join(br.dir, "native.bin")
+					if r := gjs.NativeBuild(br.dir, bin); r.ExitCode != 0 || r.Err != nil {
+						c.Infra(fmt.Errorf("reference toolchain rejected a generated program: %s", r.Out))
+						return false, false
+					}
+				}
+				nat := gjs.ClassifyNative(gjs.NativeRun(bin, 20*time.Second, nil, strconv.Itoa(i)))
+				ok, _ := agreeWith(nat, nat.Lines, s.Out)
+				return ok, true
+			}
 			if ok, _ := agreeWith(o, o.Lines, model); ok {
 				matched[bi]++
 				if len(realOf[k].Dev) > 0 {
 					confirmed[bi]++
+				}
+				// the deviations `proxy` and `suspend` are reported by the main phase of C08 and by C02 (their
+				// classifier keys); `goexit` has no scenario class of its own there: it is raised here
+				if hasDev(realOf[k].Dev, "goexit") {
+					if refOK, _ := agreeWith(o, o.Lines, s.Out); !refOK {
+						nat, built := nativeAgrees()
+						if !built {
+							return
+						}
+						if !nat {
+							discards[bi]++
+							continue
+						}
+						_, whyRef := agreeWith(o, o.Lines, s.Out)
+						res[bi] = append(res[bi], verdict{k: k, s: s, got: o, why: whyRef, violates: true, goexit: true})
+					}
 				}
 				continue
 			}
@@ -458,15 +521,11 @@ func implModel(c *core.Ctx, pool *gjs.Pool, scens map[string]*scenario) {
 				continue
 			}
 			// the reference rejects the observation: the guard decides whether this is a verdict
-			if bin == "" {
-				bin = filepath.Join(br.dir, "native.bin")
-				if r := gjs.NativeBuild(br.dir, bin); r.ExitCode != 0 || r.Err != nil {
-					c.Infra(fmt.Errorf("reference toolchain rejected a generated program: %s", r.Out))
-					return
-				}
+			nat, built := nativeAgrees()
+			if !built {
+				return
 			}
-			nat := gjs.ClassifyNative(gjs.NativeRun(bin, 20*time.Second, nil, strconv.Itoa(i)))
-			if ok, _ := agreeWith(nat, nat.Lines, s.Out); !ok {
+			if !nat {
 				discards[bi]++
 				continue
 			}
@@ -530,17 +589,24 @@ func implModel(c *core.Ctx, pool *gjs.Pool, scens map[string]*scenario) {
 				files["prog/"+n] = content
 			}
 			keys := classify(v.s)
+			if v.goexit {
+				keys = append(keys, "goexit_unwinds_function_called_by_deferred_call")
+			}
 			if wrapperShape(v.s) && plainOK[v.s.raw] {
 				keys = append(keys, "recover_in_deferred_value_receiver_method:"+variantNames[v.s.V])
 			}
 			pj, _ := json.Marshal(rawP(v.s))
-			c.Report(core.Case{Keys: keys, Summary: fmt.Sprintf("defer/panic/recover scenario %s (calls rendered as %s, suspension level %d): compiled program %s; neither Unwind.tla nor the implementation model UnwindJS.tla (pinned tree incl. its known deviations) explains it (native Go agrees with the specification)", pj, variantNames[v.s.V], v.k.y, v.why), Files: files})
+			expl := "neither Unwind.tla nor the implementation model UnwindJS.tla (pinned tree incl. its known deviations) explains it"
+			if v.goexit {
+				expl = "UnwindJS.tla explains it by the deviation action DevGoexitUnwindsLateFrame ($callDeferred rethrows null for a frame entered after Goexit began)"
+			}
+			c.Report(core.Case{Keys: keys, Summary: fmt.Sprintf("defer/panic/recover scenario %s (calls rendered as %s, suspension level %d): compiled program %s; %s (native Go agrees with the specification)", pj, variantNames[v.s.V], v.k.y, v.why, expl), Files: files})
 		}
 	}
 	c.Phase("impl_model_replay")
 
 	// ---- 4. code -> model: trace validation ---------------------------------------------
-	nTr := c.Pick(150, 3000)
+	nTr := c.Pick(150, 1500)
 	var trC []combo
 	trC = append(trC, devC[:minInt(len(devC), nTr/3)]...)
 	trC = append(trC, plainC[:minInt(len(plainC), nTr-len(trC))]...)
@@ -695,6 +761,15 @@ func tlcWorkers(c *core.Ctx) int {
 		return 2
 	}
 	return 4
+}
+
+func hasDev(dev []string, d string) bool {
+	for _, x := range dev {
+		if x == d {
+			return true
+		}
+	}
+	return false
 }
 
 func minInt(a, b int) int {
